@@ -120,3 +120,4 @@ def run(chk):
     c03.rule_failfields(chk)
     c06.rule_reserve_and_codec(chk)  # remote sub-tasks continue at the reserved position
     c09.rule_model(chk, prefix="C01")
+    common.rule_forwarding(chk, "C01")
